@@ -82,7 +82,7 @@ Proof.
   - apply andb_true_iff in E. destruct E as [E12 _]. apply andb_true_iff in E12. destruct E12 as [E0 _].
     apply N.eqb_eq in E0. subst tg. reflexivity.
   - unfold step, accepts.
-    replace ((tg =? topic c) && (id =? from) && negb (id =? self c) && memb id (membership c)) with false; [reflexivity|].
+    replace ((tg =? topic c) && (id =? from) && negb (id =? self c) && memb id (membership c)) with false; [destruct (stopped st); reflexivity|].
     destruct (tg =? topic c), (id =? from), (negb (id =? self c)), (memb id (membership c)); simpl in *; congruence.
 Qed.
 
